@@ -43,7 +43,7 @@ func (bitrot) Name() string    { return "bitrot" }
 func (bitrot) Props() []string { return []string{"C09"} }
 func (bitrot) Runs(tier string) int64 {
 	if tier == "thorough" {
-		return 40000
+		return 90000
 	}
 	return 900
 }
@@ -198,7 +198,8 @@ func rotSections(sc *BitrotScenario, out *core.Outcome) {
 	// library's own fault-free output: a table that is delivered without its CRC_32 having been
 	// verified is often mis-decoded already when intact, and must not make the run unjudgeable.
 	exp := map[uint16][]datumRec{}
-	for pid, w := range want {
+	for _, pid := range pidKeys(want) {
+		w := want[pid]
 		for _, e := range w {
 			exp[pid] = append(exp[pid], datumRec{key: e.key, unit: [2]int{e.stream, e.unit}})
 		}
@@ -268,7 +269,8 @@ func rotSections(sc *BitrotScenario, out *core.Outcome) {
 			return
 		}
 		// other PIDs: identical
-		for p, bl := range base {
+		for _, p := range pidKeys(base) {
+			bl := base[p]
 			if p == pid {
 				continue
 			}
